@@ -84,6 +84,19 @@
 // instead of if (headertojson); reordered Init checks with `if c := spec.Compress; ...`;
 // `w := cb.window; w.FailureRate()`.
 //
+// Robustness pass (behaviour-preserving refactorings, all silent): obligations are attributed to
+// the owner of a function (an unexported helper with a single same-package caller belongs to its
+// caller: extract / inline function keeps constructs and known-finding keys), reviewed divisors
+// are keyed by operand role + site count (not by function), an operand / payload receiver that
+// is a parameter is judged at the call sites, proofs see through single-definition locals tested
+// in place of the expression (`n := len(xs); if n == 0`) and through guards in same-package
+// helpers (flow inlining + parameter vocabulary, with an opaque-helper analysis as second
+// chance), Validate checks search the reach of Validate, the half-open admission check inlines
+// same-package callees and finds the state field by type, deferred named recover functions are
+// barriers. Tried: the 34 refactorings of /tmp/vw/C13/refactors.txt plus own variants (RawPayload
+// and the stream test moved into helpers, `hasGroup(match)`, `noServers(lb.Servers)`, named
+// deferred recoverBuild, rate evaluation moved out of RecordResult).
+//
 // Genuine defects found on today's tree (demo tests + fixes in /tmp/vw/C13/out): see final report.
 package rules
 
@@ -268,10 +281,47 @@ func c13Innermost(f *flow.Func, node ast.Node) *flow.Func {
 
 // c13StatesAt analyses fn and returns the abstract states in which the CFG node containing
 // target is reached (nil, false if the node was never seen).
-func c13StatesAt(c *core.Ctx, fn *flow.Func, target ast.Node, cfg flow.Config) ([]*flow.State, bool) {
+//
+// Two sound analyses are available: same-package helpers interpreted in place (sees guards that
+// live in helpers) and helpers kept opaque (the engine loses the caller's facts about an argument
+// when the same helper is entered a second time, e.g. for the other outcome of `if h(x)`). When
+// the caller supplies its acceptance predicate good, the states of the analysis in which every
+// state is good are returned; if neither is, those of the first.
+func c13StatesAt(c *core.Ctx, fn *flow.Func, target ast.Node, cfg flow.Config, good ...func(*flow.State) bool) ([]*flow.State, bool) {
+	if cfg.Inline != nil || len(good) == 0 {
+		return c13StatesAt1(c, fn, target, cfg)
+	}
+	all := func(states []*flow.State) bool {
+		for _, st := range states {
+			if !good[0](st) {
+				return false
+			}
+		}
+		return true
+	}
+	s1, seen1 := c13StatesAt1(c, fn, target, cfg)
+	if !seen1 || all(s1) {
+		return s1, seen1
+	}
+	opaque := cfg
+	opaque.Inline = func(*ast.CallExpr, *types.Func) *flow.Func { return nil }
+	if s2, seen2 := c13StatesAt1(c, fn, target, opaque); seen2 && all(s2) {
+		return s2, true
+	}
+	return s1, seen1
+}
+
+func c13StatesAt1(c *core.Ctx, fn *flow.Func, target ast.Node, cfg flow.Config) ([]*flow.State, bool) {
 	var states []*flow.State
 	seen := false
 	user := cfg.OnNode
+	if cfg.Inline == nil {
+		// guards may live in same-package helpers (`if tooShort(parts) { return }`): the callee is
+		// interpreted in place and learns its facts in the vocabulary of its parameters, which the
+		// engine copies back to the caller's expressions — so the fact filter must let them through
+		cfg.Inline = inlineSamePkg(fn)
+		cfg.Track = nil
+	}
 	cfg.OnNode = func(st *flow.State, n ast.Node) {
 		if user != nil {
 			user(st, n)
@@ -393,6 +443,76 @@ func c13PureArgsOnly(f *flow.Func, base types.Object) func(*ast.CallExpr, types.
 	}
 }
 
+// c13ParamVocab extends a list of fact-name fragments (renderings) by their spelling in the
+// vocabulary of same-package helpers called from f: when h(a) binds parameter p to the argument
+// a and a name mentions a, the name with p in place of a is added. The engine copies facts back
+// from p to a when the inlined callee exits, but facts learned from the callee's *returned
+// condition* (`return len(p) > 1`, assumed after the exit) stay in p's vocabulary; they are facts
+// about a as long as every call of h in f binds p to the same a.
+func c13ParamVocab(f *flow.Func, names []string) []string {
+	type bind struct{ arg, param string }
+	perParam := map[string]map[string]bool{}
+	var binds []bind
+	ast.Inspect(f.Body, func(x ast.Node) bool {
+		call, ok := x.(*ast.CallExpr)
+		if !ok {
+			return true
+		}
+		fo, ok := f.Callee(call).(*types.Func)
+		if !ok || fo.Pkg() != f.Pkg.Types {
+			return true
+		}
+		fd := declOf(f.Pkg, fo)
+		if fd == nil || fd.Type.Params == nil {
+			return true
+		}
+		var params []*ast.Ident
+		for _, fld := range fd.Type.Params.List {
+			params = append(params, fld.Names...)
+		}
+		if len(params) != len(call.Args) {
+			return true
+		}
+		for i, a := range call.Args {
+			pr, ar := f.Render(params[i]), f.Render(a)
+			if perParam[pr] == nil {
+				perParam[pr] = map[string]bool{}
+			}
+			perParam[pr][ar] = true
+			binds = append(binds, bind{ar, pr})
+		}
+		// the receiver
+		if sel, ok := ast.Unparen(call.Fun).(*ast.SelectorExpr); ok && fd.Recv != nil && len(fd.Recv.List) == 1 && len(fd.Recv.List[0].Names) == 1 {
+			pr, ar := f.Render(fd.Recv.List[0].Names[0]), f.Render(sel.X)
+			if perParam[pr] == nil {
+				perParam[pr] = map[string]bool{}
+			}
+			perParam[pr][ar] = true
+			binds = append(binds, bind{ar, pr})
+		}
+		return true
+	})
+	out := append([]string{}, names...)
+	have := map[string]bool{}
+	for _, n := range names {
+		have[n] = true
+	}
+	for _, b := range binds {
+		if len(perParam[b.param]) != 1 {
+			continue
+		}
+		for _, n := range names {
+			if strings.Contains(n, b.arg) {
+				if nn := strings.ReplaceAll(n, b.arg, b.param); !have[nn] {
+					have[nn] = true
+					out = append(out, nn)
+				}
+			}
+		}
+	}
+	return out
+}
+
 func c13Join(ss []string) string { return strings.Join(ss, ", ") }
 
 func c13SortedSet(m map[string]bool) []string {
@@ -436,34 +556,8 @@ func c13RawPayload(c *core.Ctx) {
 				continue
 			}
 			sites++
-			f := c13Innermost(top, call)
-			recv := ast.Unparen(call.Fun).(*ast.SelectorExpr).X
-			key := "call:" + f.Render(recv) + ".IsStream()"
-			base := c13BaseObj(f, recv)
-			pure := c13PureArgsOnly(f, base)
-			cfg := flow.Config{
-				Track: func(k string) bool { return k == key || strings.HasPrefix(k, "v:") },
-				Pure: func(cl *ast.CallExpr, callee types.Object) bool {
-					return pure(cl, callee)
-				},
-				OnCall: func(st *flow.State, cl *ast.CallExpr, callee types.Object, deferred bool) {
-					// the payload is replaced: stream-ness is unknown again
-					if c13IsPayloadMethod(f, cl, "SetPayload") || c13IsPayloadMethod(f, cl, "FetchPayload") {
-						if s, ok := ast.Unparen(cl.Fun).(*ast.SelectorExpr); ok && f.Render(s.X) == f.Render(recv) {
-							st.Set(key, flow.Unknown)
-						}
-					}
-					if !pure(cl, callee) {
-						st.Set(key, flow.Unknown)
-					}
-				},
-			}
-			res := analyze(c, f, cfg)
-			if res == nil {
-				continue
-			}
-			cons := name + "|RawPayload on " + c13RecvRole(f, recv)
-			states := res.At[call]
+			recv0 := ast.Unparen(call.Fun).(*ast.SelectorExpr).X
+			cons := name + "|RawPayload on " + c13RecvRole(top, recv0)
 			v := verdicts[cons]
 			if v == nil {
 				v = &verdict{at: call}
@@ -471,12 +565,127 @@ func c13RawPayload(c *core.Ctx) {
 				order = append(order, cons)
 			}
 			v.calls++
-			v.states += len(states)
-			for _, st := range states {
-				if !st.Is(key, flow.False) && v.bad == nil {
-					v.bad = st
-					v.at = call
-					break
+			// where is it judged: in place, or — when the receiver is a parameter of an unexported
+			// function — at every same-package call site of that function, on the argument
+			type place struct {
+				f    *flow.Func
+				at   *ast.CallExpr
+				recv ast.Expr
+			}
+			places := []place{{c13Innermost(top, call), call, recv0}}
+			if fd, ok := top.Node.(*ast.FuncDecl); ok && !ast.IsExported(fd.Name.Name) {
+				node := &c13Node{pkg: top.Pkg, decl: fd, body: fd.Body, obj: top.Info.Defs[fd.Name]}
+				if id, ok := ast.Unparen(recv0).(*ast.Ident); ok {
+					if pi := c13ParamIndex(node, id); pi >= 0 && places[0].f.Node == top.Node {
+						var at []place
+						for _, file := range top.Pkg.Syntax {
+							for _, d := range file.Decls {
+								cd, ok := d.(*ast.FuncDecl)
+								if !ok || cd.Body == nil || cd == fd {
+									continue
+								}
+								cf := flow.NewFunc(top.Pkg, cd)
+								for _, cc := range calls(cd.Body, true) {
+									if cf.Callee(cc) == node.obj && len(cc.Args) > pi {
+										at = append(at, place{c13Innermost(cf, cc), cc, cc.Args[pi]})
+									}
+								}
+							}
+						}
+						if len(at) > 0 {
+							places = at
+						}
+					}
+				}
+			}
+			for _, pl := range places {
+				f, recv := pl.f, pl.recv
+				key := "call:" + f.Render(recv) + ".IsStream()"
+				base := c13BaseObj(f, recv)
+				pure0 := c13PureArgsOnly(f, base)
+				pure := func(cl *ast.CallExpr, callee types.Object) bool {
+					if pure0(cl, callee) {
+						return true
+					}
+					// handed to a same-package helper: harmless unless the helper (or what it
+					// calls in the package) replaces a payload
+					fo, ok := callee.(*types.Func)
+					if !ok || fo.Pkg() != f.Pkg.Types {
+						return false
+					}
+					fd := declOf(f.Pkg, fo)
+					if fd == nil {
+						return false
+					}
+					for _, h := range reach(flow.NewFunc(f.Pkg, fd), 3) {
+						for _, hc := range calls(h.Body, true) {
+							if c13IsPayloadMethod(h, hc, "SetPayload") || c13IsPayloadMethod(h, hc, "FetchPayload") {
+								return false
+							}
+						}
+					}
+					return true
+				}
+				judgedCall := pl.at
+				inl := inlineSamePkg(f)
+				cfg := flow.Config{
+					// only helpers that test IsStream() are interpreted in place (engine: the facts of
+					// the caller about an aliased argument do not survive a second entry into the
+					// same callee, see the report); the others are opaque and harmless (pure)
+					Inline: func(cl *ast.CallExpr, callee *types.Func) *flow.Func {
+						if cl == judgedCall || callee == nil || callee.Pkg() != f.Pkg.Types {
+							return nil
+						}
+						fd := declOf(f.Pkg, callee)
+						if fd == nil {
+							return nil
+						}
+						for _, h := range reach(flow.NewFunc(f.Pkg, fd), 3) {
+							for _, hc := range calls(h.Body, true) {
+								if c13IsPayloadMethod(h, hc, "IsStream") {
+									return inl(cl, callee)
+								}
+							}
+						}
+						return nil
+					},
+					Pure: func(cl *ast.CallExpr, callee types.Object) bool {
+						return cl == judgedCall || pure(cl, callee)
+					},
+					OnCall: func(st *flow.State, cl *ast.CallExpr, callee types.Object, deferred bool) {
+						if cl == judgedCall {
+							return
+						}
+						// the payload is replaced: stream-ness is unknown again
+						if c13IsPayloadMethod(f, cl, "SetPayload") || c13IsPayloadMethod(f, cl, "FetchPayload") {
+							if s, ok := ast.Unparen(cl.Fun).(*ast.SelectorExpr); ok && f.Render(s.X) == f.Render(recv) {
+								st.Set(key, flow.Unknown)
+							}
+						}
+						if !pure(cl, callee) {
+							st.Set(key, flow.Unknown)
+						}
+					},
+				}
+				res := analyze(c, f, cfg)
+				if res == nil {
+					continue
+				}
+				states := res.At[pl.at]
+				v.states += len(states)
+				keys := c13ParamVocab(f, []string{key})
+				for _, st := range states {
+					known := false
+					for _, k := range keys {
+						if st.Is(k, flow.False) {
+							known = true
+						}
+					}
+					if !known && v.bad == nil {
+						v.bad = st
+						v.at = pl.at
+						break
+					}
 				}
 			}
 		}
@@ -542,7 +751,8 @@ func c13Downcast(c *core.Ctx) {
 				return true
 			}
 			key := f.NilKey(id)
-			states, seen := c13StatesAt(c, f, ta, flow.Config{Track: func(k string) bool { return k == key || strings.HasPrefix(k, "v:") }})
+			states, seen := c13StatesAt(c, f, ta, flow.Config{Track: func(k string) bool { return k == key || strings.HasPrefix(k, "v:") }},
+				func(st *flow.State) bool { return st.Is(key, flow.False) })
 			if !seen {
 				c.Discharge("R-C13-6", cons, pos(c, ta), "unreachable")
 				return true
